@@ -6,7 +6,9 @@ package main
 
 import (
 	"bytes"
+	"crypto/hmac"
 	"crypto/sha256"
+	"crypto/sha512"
 	"fmt"
 	"math/big"
 	"strconv"
@@ -469,6 +471,72 @@ func init() {
 				}
 				c.do("der.dec", []string{hx(b)}, "der.dec:structural", L, true)
 			}
+		}
+	})
+}
+
+// refCKDprivNormal: BIP32 CKDpriv for a non-hardened index, written for the harness on crypto/hmac and
+// ekliptic only (no state, no bitcoinlib code).
+func refCKDprivNormal(key, cc []byte, idx uint32) ([]byte, []byte) {
+	x, y := ekliptic.MultiplyBasePoint(new(big.Int).SetBytes(key))
+	data := make([]byte, 0, 37)
+	data = append(data, 2+byte(y.Bit(0)))
+	data = append(data, x.FillBytes(make([]byte, 32))...)
+	data = append(data, byte(idx>>24), byte(idx>>16), byte(idx>>8), byte(idx))
+	mac := hmac.New(sha512.New, cc)
+	mac.Write(data)
+	l := mac.Sum(nil)
+	k := new(big.Int).SetBytes(l[:32])
+	k.Add(k, new(big.Int).SetBytes(key))
+	k.Mod(k, secpN)
+	return k.FillBytes(make([]byte, 32)), l[32:]
+}
+
+func init() {
+	// one caller buffer, rewritten between calls: the result must follow the bytes, not the slice
+	reg("c18.ckdpriv.reuse", GoOnly, func(a []string) (string, []string) {
+		cc := unhx(a[0])
+		idx64, _ := strconv.ParseUint(a[1], 10, 32)
+		idx := uint32(idx64)
+		buf := make([]byte, 32)
+		var direct []string
+		for _, kh := range a[2:] {
+			key := unhx(kh)
+			copy(buf, key)
+			k, c := bip32.DerivePrivateChild(buf, append([]byte{}, cc...), idx)
+			wk, wc := refCKDprivNormal(key, cc, idx)
+			if !bytes.Equal(k, wk) || !bytes.Equal(c, wc) {
+				direct = append(direct, fmt.Sprintf("DerivePrivateChild(%x…, index %d) in a reused caller buffer returned %x…, BIP32 gives %x… (the result depends on the history of the caller's buffer)", key[:4], idx, k[:4], wk[:4]))
+			}
+			if !bytes.Equal(buf, key) {
+				direct = append(direct, "DerivePrivateChild modified the caller's key buffer")
+			}
+		}
+		return "ok", direct
+	})
+	regExtra("C18", func(r *Runner) {
+		for i := 0; i < r.N(20, 300); i++ {
+			args := []string{hx(r.bytesN(32)), strconv.Itoa(r.rng.Intn(1 << 20))}
+			for j := 0; j < 3; j++ {
+				k := r.bytesN(32)
+				k[0] &= 0x7f
+				k[31] |= 1
+				args = append(args, hx(k))
+			}
+			args = append(args, args[2]) // and back to the first key
+			r.Do("c18.ckdpriv.reuse", args, "ckdpriv-reused-buffer-history", true, "")
+		}
+	})
+	regExtra("C07", func(r *Runner) {
+		for i := 0; i < r.N(20, 300); i++ {
+			args := []string{hx(r.bytesN(32)), strconv.Itoa(r.rng.Intn(1 << 20))}
+			for j := 0; j < 3; j++ {
+				k := r.bytesN(32)
+				k[0] &= 0x7f
+				k[31] |= 1
+				args = append(args, hx(k))
+			}
+			r.Do("c18.ckdpriv.reuse", args, "ckdpriv-reused-buffer-history", true, "")
 		}
 	})
 }
